@@ -431,7 +431,9 @@ pub fn tail_probes(fslog: &[FsRec], dirkey: &str, cfg: &Cfg, opts: &Value, seed:
         }
     }
     // zero tails from every record boundary, a few lengths each
-    let zlens: Vec<usize> = vec![1, 2, 3, 4, 7, 8, 27, 28, 29, 64, 1024, 1025, 33 * 1024];
+    // (lengths around the read block of the zero scan, 1 KiB, and around 64 KiB: "any length" in the property)
+    let zlens: Vec<usize> = vec![1, 2, 3, 4, 7, 8, 27, 28, 29, 64, 1023, 1024, 1025, 33 * 1024, 64 * 1024, 64 * 1024 + 1, 200 * 1024];
+    let zbig: Vec<usize> = vec![64 * 1024, 64 * 1024 + 1, 200 * 1024];
     for b in bounds.iter() {
         let mut ls: Vec<usize> = vec![];
         let next = bounds.iter().copied().find(|y| *y > *b).unwrap_or(*b);
@@ -441,6 +443,7 @@ pub fn tail_probes(fslog: &[FsRec], dirkey: &str, cfg: &Cfg, opts: &Value, seed:
         for _ in 0..(if opts["all_cuts"].as_bool().unwrap_or(false) { zlens.len() } else { 4 }) {
             ls.push(zlens[rng.below(zlens.len() as u64) as usize]);
         }
+        ls.push(zbig[rng.below(zbig.len() as u64) as usize]);
         if opts["all_cuts"].as_bool().unwrap_or(false) {
             ls.extend(zlens.iter().copied());
         }
